@@ -23,6 +23,7 @@ func init() {
 }
 
 func runC21(c *core.Ctx) {
+	c21DumpReads(c)
 	// C21.a
 	if fn := c.Fn("C21.a", "store", "(*Store).Backup"); fn != nil {
 		var opens []ssa.CallInstruction
